@@ -76,16 +76,26 @@ pub fn expected_schema(v: (u8, u8), ports: &[(u8, bool)]) -> DataType {
 	DataType::Struct(fields)
 }
 
+/// names, nesting, order and primitive types (nullability flags, field metadata and the name of a list's
+/// inner field are not part of the property)
+fn same_shape(a: &DataType, b: &DataType) -> bool {
+	match (a, b) {
+		(DataType::Struct(x), DataType::Struct(y)) => x.len() == y.len() && x.iter().zip(y).all(|(f, g)| f.name == g.name && same_shape(&f.data_type, &g.data_type)),
+		(DataType::List(f), DataType::List(g)) | (DataType::LargeList(f), DataType::LargeList(g)) => same_shape(&f.data_type, &g.data_type),
+		(x, y) => x == y,
+	}
+}
+
 fn describe_dt(d: &DataType, indent: usize, out: &mut String) {
 	match d {
 		DataType::Struct(fs) => {
 			for f in fs {
-				out.push_str(&format!("{}{}{}\n", " ".repeat(indent), f.name, if f.is_nullable { "?" } else { "" }));
+				out.push_str(&format!("{}{}\n", " ".repeat(indent), f.name));
 				describe_dt(&f.data_type, indent + 1, out);
 			}
 		}
 		DataType::List(f) => {
-			out.push_str(&format!("{}[{}]\n", " ".repeat(indent), f.name));
+			out.push_str(&format!("{}[list]\n", " ".repeat(indent)));
 			describe_dt(&f.data_type, indent + 1, out);
 		}
 		other => out.push_str(&format!("{}:{:?}\n", " ".repeat(indent), other)),
@@ -131,7 +141,7 @@ fn check(ctx: &Ctx, m: &ModelGame, label: &str, counting: bool) -> Result<(), Fa
 	// schema
 	let ports: Vec<(u8, bool)> = m.ports.iter().map(|p| (p.port, p.ics)).collect();
 	let want = expected_schema(v, &ports);
-	if arr.data_type() != &want {
+	if !same_shape(arr.data_type(), &want) {
 		return Err(fail("schema", format!("schema differs: {}", first_schema_diff(arr.data_type(), &want))));
 	}
 	use arrow2::array::Array;
